@@ -165,6 +165,15 @@ def check_sum(ctx, rep, f):
             init_ok = (tag(init) == "agg" and len(init[2]) == 2 and init[2][0] is zero and init[2][1] is zero) or \
                       (tag(init) == "call" and init[1] in ("<TwoFloat as core::default::Default>::default",))
             fn_ok = tag(fn) == "fnitem" and fn[1].startswith("core::ops::Add::add<TwoFloat,T>") or (tag(fn) == "fnitem" and "core::ops::Add::add" in fn[1] and "TwoFloat" in fn[1])
+            if not fn_ok and tag(fn) == "agg" and fn[1][0] == "closure" and len(fn[2]) == 0:
+                # |acc, item| acc + item
+                cb = f.by_key.get(fn[1][1])
+                if cb is not None:
+                    try:
+                        ct = H.tree_of(f, cb, "op")
+                        fn_ok = ct[0] == "leaf" and tag(ct[1]) == "call" and ct[1][1].startswith("core::ops::Add::add<TwoFloat,T>") and ct[1][2] is P(1) and ct[1][3] is P(2)
+                    except vg.Unsupported:
+                        fn_ok = False
             it_ok = it is P(0)
             ok = init_ok and fn_ok and it_ok
     rep.check(ok, "R7", "Sum::sum = fold(+0, Add::add)", "sum-not-fold", "Iterator::sum is not a left fold with + from zero: %s" % (vg.show(t)[:400]),
